@@ -8,7 +8,7 @@ FRESH_KINDS = ['list', 'dict', 'obj'] + ODD_EQ_KINDS
 
 
 class Gen:
-    def __init__(self, rng, names=None, nmaps=None, nhandles=None, alias_p=0.12, odd_p=0.5):
+    def __init__(self, rng, names=None, nmaps=None, nhandles=None, alias_p=0.12, odd_p=0.5, fail_p=0.15):
         self.rng = rng
         self.lines = []
         if names is None:
@@ -26,6 +26,7 @@ class Gen:
         self.bound = []
         self.snaps = []
         self.paths = []           # keys that were assigned at some time (to aim queries at)
+        self.fails = {}
         singles = rng.sample(SINGLETON_KINDS, len(SINGLETON_KINDS))
         for m in self.maps:
             self.lines.append(f'newmap {m}')
@@ -40,7 +41,12 @@ class Gen:
                 kind = singles.pop()
             else:
                 kind = rng.choice(FRESH_KINDS)
-            self.lines.append(f'newhandle {h} {kind}')
+            # loaders that raise on scripted invocations (the 1st, the 1st and 2nd, the 2nd, ...)
+            fail = ''
+            if rng.random() < fail_p or (i == odd and rng.random() < 2 * fail_p):
+                fail = ' fail=' + rng.choice(['1', '1', '1,2', '2', '1,3', '2,3', '3'])
+            self.fails[h] = fail
+            self.lines.append(f'newhandle {h} {kind}{fail}')
 
     def emit(self, s):
         self.lines.append('op ' + s)
@@ -88,6 +94,23 @@ class Gen:
         v = v or self.value()
         self.paths.append(p)
         self.emit(f'set {root} {self.tok(p)} {v}')
+
+    def op_reject(self):
+        """an assignment that must be refused: a value that is neither a map nor a handle (under a key whose
+        prefix is a handle, under a fresh deep key, under an existing key), or a key that is not a string"""
+        rng = self.rng
+        root = self.root()
+        if rng.random() < 0.2:
+            self.emit(f'setkey {root} k{rng.randint(0, 3)} {rng.choice(self.handles + self.maps)}')
+            return
+        r = rng.random()
+        if self.paths and r < 0.45:
+            p = list(rng.choice(self.paths)) + [rng.choice(self.names) for _ in range(rng.randint(1, 2))]
+        elif self.paths and r < 0.65:
+            p = list(rng.choice(self.paths))
+        else:
+            p = [rng.choice(self.names) for _ in range(rng.randint(2, 4))]
+        self.emit(f'set {root} {self.tok(p[:4])} x{rng.randint(0, 6)}')
 
     def op_layer(self):
         self.emit(f'layer {self.root()}')
@@ -144,7 +167,13 @@ def gen_c11(rng, fresh_only=False):
     g = Gen(rng, alias_p=0.0 if fresh_only else 0.12)
     for _ in range(rng.randint(1, 22)):
         r = rng.random()
-        if r < 0.42:
+        if r < 0.07:
+            # refused in the middle of the history; the tree is observed afterwards
+            g.op_reject()
+            g.observe()
+            if g.paths:
+                g.emit(f'get {g.maps[0]} {g.tok(rng.choice(g.paths))}')
+        elif r < 0.42:
             g.op_set()
             g.observe()
         elif r < 0.50:
@@ -169,7 +198,7 @@ def gen_c11(rng, fresh_only=False):
 
 
 def gen_c12(rng):
-    g = Gen(rng, nhandles=rng.randint(1, 6), alias_p=0.1, odd_p=0.85)
+    g = Gen(rng, nhandles=rng.randint(1, 6), alias_p=0.1, odd_p=0.85, fail_p=0.3)
     for _ in range(rng.randint(1, 6)):
         g.op_set(v=g.value(map_p=0.1))
     if rng.random() < 0.4:
